@@ -105,6 +105,87 @@ def judge(chk, c, impl, implp, mod, perm):
         chk.fail_disagree(f"{c}: impl {ci} model {cm}", {"case": c, "impl": impl, "model": mod})
 
 
+# ---------------------------------------------------------------- whole projects: eligibility of every (builder, app definition)
+
+PROJ_PROF = None
+
+
+def proj_prof():
+    from . import projgen
+    return projgen.profile(n_ctx=(2, 5), n_builders=(2, 4), n_apps=(2, 4), p_app_elsewhere=0.6, p_blockallow=0.6, p_app_dup=0.5, p_ctx_shuffle=0.3,
+                           p_cli_builders=0.1, p_cli_apps=0.1, p_custom_build=0.0, p_download=0.0, p_tasks=0.0)
+
+
+def project_oracle(chk, p, r, m):
+    """every (builder, app definition) the implementation decided: configured only if the app's context is the builder or one of its
+    ancestors and the nearest listed ancestor allows it; decided `not-ancestor` only if it is not"""
+    from . import projrun, projcheck
+    if projrun.impl_status(r) != "ok":
+        return
+    parent = {}
+    for path, docs in p["files"].items():
+        for d in docs:
+            for c in (d.get("contexts") or []) + (d.get("builders") or []):
+                parent[c["name"]] = c.get("parent", None if c["name"] == "default" else "default")
+
+    def chain_names(c):
+        out, seen = [], set()
+        while c is not None and c not in seen:
+            seen.add(c); out.append(c); c = parent.get(c)
+        return out
+    defs = {}
+    for kind, mod, path in projcheck.yaml_modules(p):
+        if kind == "apps":
+            cs = mod.get("context", "default")
+            for c in (cs if isinstance(cs, list) else [cs]):
+                defs[(mod["name"], c)] = mod
+    dflt = {}
+    for path, docs in p["files"].items():
+        for d in docs:
+            if (d.get("defaults") or {}).get("app"):
+                dflt[path] = True
+    for b in r.get("dump", []):
+        ch = chain_names(b["builder"])
+        actx = b.get("app_context")
+        anc = actx in ch
+        chk.count("decision:" + b["decision"])
+        if b["decision"] in ("built", "unresolved", "dep-cycle") and not anc:
+            chk.fail_oracle("eligible:not-ancestor-configured", f"app {b['app']} of context {actx} is configured for builder {b['builder']} (chain {ch})",
+                            {"project": p, "build": [b["builder"], b["app"], actx]})
+            return
+        if b["decision"] == "not-ancestor" and anc:
+            mod = defs.get((b["app"], actx))
+            chk.fail_oracle("eligible:ancestor-refused", f"app {b['app']} of context {actx} is refused for builder {b['builder']} as not-ancestor (chain {ch})",
+                            {"project": p, "build": [b["builder"], b["app"], actx]})
+            return
+        mod = defs.get((b["app"], actx))
+        if mod is not None and not dflt and anc:
+            # allow/block decision by the nearest listed ancestor (lists written in the app itself; files with app defaults are skipped)
+            bl, al = mod.get("blocklist"), mod.get("allowlist")
+            depth = {c: i for i, c in enumerate(ch)}
+            nb = min([depth[x] for x in (bl or []) if x in depth], default=None)
+            na = min([depth[x] for x in (al or []) if x in depth], default=None)
+            if al is None and bl is None:
+                want = True
+            elif bl is not None and al is None:
+                want = nb is None
+            elif al is not None and bl is None:
+                want = na is not None
+            elif na is None and nb is None:
+                want = None          # both lists given, none matches: not specified by the statement (as in spec())
+            elif na is None:
+                want = False
+            elif nb is None:
+                want = True
+            else:
+                want = None if na == nb else (na < nb)
+            got = b["decision"] != "blocked"
+            if want is not None and got != want:
+                chk.fail_oracle("eligible:allow-block", f"app {b['app']}@{actx} builder {b['builder']} (chain {ch}) blocklist {bl} allowlist {al}: decision {b['decision']}",
+                                {"project": p, "build": [b["builder"], b["app"], actx]})
+                return
+
+
 def run(chk):
     n = 40000 if chk.tier == "quick" else 1000000
     chk.rule = ("random context trees (1-9 contexts, chains and bushy) x allow/block lists (absent, empty, unknown names, duplicates, "
@@ -114,12 +195,21 @@ def run(chk):
     for c, impl, implp, mod, perm in common.parallel_map(worker, cases):
         chk.note_case({k: v for k, v in c.items() if k != "id"}, nontrivial(c))
         judge(chk, c, impl, implp, mod, perm)
+    # whole projects through the real CLI: ancestor eligibility and allow/block lists of every (builder, app definition),
+    # app names defined in several sibling contexts; decisions compared with the model's
+    from . import projcheck
+    np_ = 250 if chk.tier == "quick" else 6000
+    projcheck.campaign(chk, proj_prof(), np_, ("status", "decision", "modules"), project_oracle,
+                       lambda c, p, r, m: len({b["decision"] for b in r.get("dump", [])}) >= 2, label="proj:", seed_shift=1100)
     chk.assumptions = ["c11.spec() is the decision table of the statement, written independently of the model"]
     return chk.finish()
 
 
 def replay(chk, path):
     r = json.load(open(path))
+    if "project" in r.get("case", {}):
+        from . import projcheck
+        return projcheck.replay_project(chk, path, ("status", "decision", "modules"), project_oracle)
     c = r["case"]["case"]
     (c, impl, implp, mod, perm), = worker([c])
     print("impl :", canon(impl)); print("perm :", canon(implp)); print("model:", canon(mod)); print("spec :", spec(c))
